@@ -15,10 +15,10 @@ package main
 
 import (
 	"fmt"
-	"os"
 	"go/constant"
 	"go/token"
 	"go/types"
+	"os"
 	"sort"
 	"strings"
 
@@ -83,12 +83,12 @@ type tokenState struct {
 	entry    map[tsCtx]tsSet
 	// summaries, per entry state: the exit states; those on which a boolean
 	// result is true; those on which it is false
-	exit  map[tsCtx]*[32]tsSet
-	exitT map[tsCtx]*[32]tsSet
-	exitF map[tsCtx]*[32]tsSet
-	consts   map[tsCtx]map[int]*ssa.Const
-	order    []tsCtx
-	changed  bool
+	exit    map[tsCtx]*[32]tsSet
+	exitT   map[tsCtx]*[32]tsSet
+	exitF   map[tsCtx]*[32]tsSet
+	consts  map[tsCtx]map[int]*ssa.Const
+	order   []tsCtx
+	changed bool
 	// per advance site: the worst state seen
 	bad map[ssa.Instruction]int
 	ok  map[ssa.Instruction]bool
@@ -781,7 +781,7 @@ func ruleTokenState(p *Program, r *Reporter) {
 		regs: registrations(p), tableHas: map[string]map[string]bool{},
 		entry: map[tsCtx]tsSet{}, exit: map[tsCtx]*[32]tsSet{}, exitT: map[tsCtx]*[32]tsSet{}, exitF: map[tsCtx]*[32]tsSet{},
 		consts: map[tsCtx]map[int]*ssa.Const{}, tupleBool: map[tsCtx]tsBoolPart{},
-		bad:    map[ssa.Instruction]int{}, ok: map[ssa.Instruction]bool{}}
+		bad: map[ssa.Instruction]int{}, ok: map[ssa.Instruction]bool{}}
 	for _, rg := range ts.regs {
 		if ts.tableHas[rg.fnType] == nil {
 			ts.tableHas[rg.fnType] = map[string]bool{}
